@@ -521,15 +521,17 @@ class C11(Spec):
                   "destruction; any number of workers and clients, arbitrary scripts of submissions of every kind, stop() and destruction from clients and from "
                   "jobs, every schedule and every choice of the notified waiter): every closure is invoked once on a worker or destroyed once, a destroyed closure "
                   "cancels observably (coroutine resumed with the exception / future broken), nothing is pending at quiescence, stop() terminates for every timing "
-                  "including self-stop and concurrent stops, a self-detached worker never touches the pool again, no submission is queued while a worker sleeps in the condition wait (also when jobs block waiting for other jobs). The model (including which worker takes which job) "
+                  "including self-stop and concurrent stops, a self-detached worker never touches the pool again, no submission is queued while a worker sleeps in the condition wait (also when jobs block waiting for other jobs), the entry of _cond.wait (predicate evaluated, mutex held, not yet registered) is a step of its own with the pool mutex modelled, and a worker of pool A that stops or destroys another pool instance B stays a worker of A. The model (including which worker takes which job) "
                   "is tied to thread_pool.h by replaying generated and exhaustively enumerated schedules on the unmodified header and diffing every line.")
-    level_note = ("trusted: Lean kernel; hand-written model lean/CoclsModel/ThreadPool.lean; baton shim (std::mutex/condition_variable/thread interposed, FIFO "
+    level_note = ("trusted: Lean kernel; hand-written model lean/CoclsModel/ThreadPool.lean; baton shim (std::mutex/condition_variable/thread interposed, optional scheduling point at the entry of the pool's _cond.wait, FIFO "
                   "notify_one, no spurious wake-ups; the theorems allow any waiter to be notified); std::atomic is left real in this harness (future/promise internals "
                   "are C01/C02). Bare-handle submissions (resume(suspend_point), pool(awaitable)) have no cancellation channel: open finding, excluded from the outcome theorem.")
     trusted_base = ["model lean/CoclsModel/ThreadPool.lean tied to thread_pool.h by step-for-step replay (harness/h_pool.cpp, shim/verif_shim.h) against lean/Drivers/C11.lean",
                     "C++20 coroutine machinery, std::queue/std::vector and libstdc++ as specified; promise/future layer (C01/C02)"]
     assumptions = ["the pool has at least one worker", "the pool is not destroyed while another thread is inside one of its methods (including a stop() running in a job)",
                    "condition variable without spurious wake-ups",
+                   "the optional second pool instance B never receives a submission (it is only stopped / destroyed, by clients and by jobs of A); destroying it overlaps no other call on it",
+                   "with the scheduling point at the entry of _cond.wait (cvy) a cancelled party calling is_stopped() is not generated (its lock contention is not modelled)",
                    "_queue/_exit/_threads are only accessed inside critical sections on _mx (C03's lock table), so a critical section is one atomic step",
                    "job bodies of the harness do nothing but stop(), nested run()/run_detached(), deleting the pool, waiting for / signalling an event; a cancelled party at most calls is_stopped()",
                    "quiescence theorems (outcome, futures, termination) assume no thread is blocked in a wait of the program itself (a job waiting for a job that can never run); "
